@@ -1,69 +1,23 @@
 (* Hnsw/Dataset.v — Dataset.Search / SearchPartitions merge: append the partitions' results, sort by score, keep k. *)
-From Verif Require Import Base.Prelude Store.Spec.
+From Verif Require Import Base.Prelude Base.TopK Base.TopKProofs Store.Spec.
 From Coq Require Import Sorted.
 Open Scope N_scope.
 
 Definition sres := (N * meta * Z)%type.
-Fixpoint ins_score (x : sres) (l : list sres) : list sres :=
-  match l with [] => [x] | y :: t => if (snd x <? snd y)%Z then x :: l else y :: ins_score x t end.
-Definition sort_score (l : list sres) : list sres := fold_right ins_score [] l.
-Definition merge (k : nat) (rs : list (list sres)) : list sres := firstn k (sort_score (concat rs)).
-
-Lemma ins_score_perm x l : Permutation (ins_score x l) (x :: l).
-Proof. induction l as [|y t IH]; simpl; auto. destruct (snd x <? snd y)%Z; auto. rewrite IH. apply perm_swap. Qed.
-Lemma sort_score_perm l : Permutation (sort_score l) l.
-Proof. induction l as [|x l IH]; simpl; auto. rewrite ins_score_perm. constructor; auto. Qed.
-Definition sle (a b : sres) : Prop := (snd a <= snd b)%Z.
-Lemma ins_score_sorted x l : StronglySorted sle l -> StronglySorted sle (ins_score x l).
-Proof.
-  induction l as [|y t IH]; intros S; simpl; [repeat constructor|]. inversion S; subst.
-  destruct (Z.ltb_spec (snd x) (snd y)).
-  - constructor; auto. constructor; [unfold sle; lia|]. eapply Forall_impl; [|exact H2]. unfold sle; intros; lia.
-  - constructor; [apply IH; auto|]. apply (Forall_perm _ (x :: t)); [apply Permutation_sym; apply ins_score_perm|].
-    constructor; auto; unfold sle; lia.
-Qed.
-Lemma sort_score_sorted l : StronglySorted sle (sort_score l).
-Proof. induction l; simpl; [constructor|apply ins_score_sorted; auto]. Qed.
-
-Lemma firstn_ssorted {A} (R : A -> A -> Prop) (l : list A) : forall k, StronglySorted R l -> StronglySorted R (firstn k l).
-Proof.
-  induction l as [|y r IH]; intros [|k] S; simpl; try constructor.
-  - apply IH. inversion S; auto.
-  - inversion S; subst. apply Forall_forall. intros x Hx.
-    assert (In x r) by (clear -Hx; revert k Hx; induction r as [|a r IH]; intros [|k] H; simpl in *; try tauto; destruct H; eauto).
-    eapply Forall_forall in H2; eauto.
-Qed.
-Lemma in_firstn' {A} (l : list A) k x : In x (firstn k l) -> In x l.
-Proof. revert k; induction l as [|a l IH]; intros [|k] H; simpl in *; try tauto. destruct H; eauto. Qed.
+Definition sscore (x : sres) : Z := snd x.
+Definition merge (k : nat) (rs : list (list sres)) : list sres := topk sscore k rs.
+Definition sle := @Base.TopKProofs.sle sres sscore.
+Definition sort_score := @sort_by_score sres sscore.
 
 (* the merged answer: only items some partition returned, ascending, at most k, no id twice when the partitions'
-   results have disjoint ids (C10: every id lives in exactly one partition), non-empty when some partition answered *)
+   results have disjoint ids (C10: every id lives in exactly one partition), non-empty when some partition answered,
+   and exactly the k best: everything kept is no worse than everything dropped *)
 Theorem merge_spec k rs :
   (forall x, In x (merge k rs) -> exists r, In r rs /\ In x r) /\
   StronglySorted sle (merge k rs) /\
   (length (merge k rs) <= k)%nat /\
   (NoDup (map (fun x => fst (fst x)) (concat rs)) -> NoDup (map (fun x => fst (fst x)) (merge k rs))) /\
   ((exists r, In r rs /\ r <> []) -> (0 < k)%nat -> merge k rs <> []) /\
-  (* exactly the k best: everything kept is no worse than everything dropped *)
   (forall x y, In x (merge k rs) -> In y (skipn k (sort_score (concat rs))) -> sle x y) /\
   Permutation (merge k rs ++ skipn k (sort_score (concat rs))) (concat rs).
-Proof.
-  unfold merge. pose proof (sort_score_perm (concat rs)) as P. pose proof (sort_score_sorted (concat rs)) as S.
-  split; [|split; [|split; [|split; [|split; [|split]]]]].
-  - intros x Hx. apply in_firstn' in Hx. eapply Permutation_in in Hx; [|exact P]. apply in_concat in Hx.
-    destruct Hx as (r & Hr & Hx). exists r. auto.
-  - apply firstn_ssorted; auto.
-  - rewrite firstn_length. lia.
-  - intros ND. apply (Permutation_map (fun x => fst (fst x))) in P.
-    eapply Permutation_NoDup in ND; [|apply Permutation_sym; exact P]. rewrite <- firstn_map. apply NoDup_firstn; auto.
-  - intros (r & Hr & NE) K. destruct r as [|x r]; [congruence|].
-    assert (Hx : In x (sort_score (concat rs))).
-    { eapply Permutation_in; [apply Permutation_sym; exact P|]. apply in_concat. exists (x :: r). split; auto. left; auto. }
-    destruct (sort_score (concat rs)); [destruct Hx|]. destruct k; [lia|]. simpl. discriminate.
-  - intros x y Hx Hy. rewrite <- (firstn_skipn k (sort_score (concat rs))) in S.
-    revert S Hx Hy. generalize (firstn k (sort_score (concat rs))) (skipn k (sort_score (concat rs))).
-    induction l as [|a l IH]; intros l2 S Hx Hy; [destruct Hx|]. simpl in S. inversion S; subst. destruct Hx as [->|Hx].
-    + eapply Forall_forall in H2; [exact H2|]. apply in_or_app. right; auto.
-    + apply (IH l2); auto.
-  - rewrite firstn_skipn. exact P.
-Qed.
+Proof. exact (topk_spec sscore (fun x : sres => fst (fst x)) k rs). Qed.
